@@ -124,6 +124,16 @@ func toIdentRefList(base []*meta.Identity, v interface{}) (val.IdentRefList, err
 			refs = append(refs, ref)
 		}
 		return refs, nil
+	case []interface{}: // what the JSON reader hands over for an array
+		var refs []val.IdentRef
+		for _, s := range x {
+			ref, err := toIdentRef(base, s)
+			if err != nil {
+				return nil, err
+			}
+			refs = append(refs, ref)
+		}
+		return refs, nil
 	}
 	return nil, fmt.Errorf("could not coerce '%v' into identref list", v)
 }
@@ -255,6 +265,15 @@ func toBitsList(bitDefintions []*meta.Bit, v interface{}) (val.BitsList, error) 
 		return toBitsListHandler(bitDefintions, x)
 	case []float64: // default type for decimals from JSON parser
 		return toBitsListHandler(bitDefintions, x)
+	case []interface{}: // what the JSON reader hands over for an array
+		result := make([]val.Bits, len(x))
+		var err error
+		for i, item := range x {
+			if result[i], err = toBits(bitDefintions, item); err != nil {
+				return nil, err
+			}
+		}
+		return result, nil
 	}
 	return nil, fmt.Errorf("could not coerce %v into BitList", v)
 }
